@@ -420,7 +420,7 @@ def rdcards_dispatch(ctx):
         raise AnchorError("rdcards: no call path to _rdfixed / _rdcomma")
 
     def follow(nm):
-        return nm in reach and nm not in READERS and nm != "rdcards"
+        return nm not in READERS and nm != "rdcards"
 
     def call(name, args, kw, node, st, eng):
         if name in mod.funcs and name not in st.env and _is_generator(mod.funcs[name]):
@@ -439,6 +439,7 @@ def rdcards_dispatch(ctx):
     found = {}
     comma = set()
     order = []
+    unbound = []
     where = None
     seen = set()
     for lf in leaves:
@@ -461,15 +462,25 @@ def rdcards_dispatch(ctx):
                 continue
             seen.add((id(node), star))
             has_line = [a is not None and any(n == LINE for n in walk_value(a)) for a in args[:2]]
-            if has_line != [False, True] or args[0] != LINES:
-                order.append(nm)
-            if nm == "_rdfixed" and len(args) >= 4 and star is not None:
-                found.setdefault(star, set()).add((args[2], args[3]))
+            if has_line[0] or args[1] == LINES:
+                order.append(nm)                                 # provably the wrong way round
+            elif args[0] != LINES or not has_line[1]:
+                unbound.append(f"{nm}({', '.join(_short(a) for a in args[:2])}, ...)")
+            if nm == "_rdfixed" and len(args) >= 4:
+                if star is None:
+                    unbound.append("_rdfixed reached without a decided test for '*' in the first 8 columns")
+                else:
+                    found.setdefault(star, set()).add((args[2], args[3]))
             if nm == "_rdcomma":
                 comma.add(args[2])
     if where is None:
         raise AnchorError("rdcards: no path of a generic card reaches _rdfixed / _rdcomma")
-    return found, comma, where, order
+    return found, comma, where, order, unbound
+
+
+def _short(v):
+    from .c12_float import describe
+    return describe(v)
 
 
 def _by_signature(ctx, name, args, kw):
@@ -505,20 +516,35 @@ def r3_card_grid(ctx):
     ctx.assume("C12-R3: a field value fits the column it is written into (integers of at most W digits, strings of at most W characters); "
                "names and string fields hold no '$', ',' or '*'")
     # ---- what the generic reader expects
-    found, comma, loop, order = rdcards_dispatch(ctx)
+    found, comma, loop, order, unbound = rdcards_dispatch(ctx)
+    if unbound:
+        ctx.error("rdcards: the arguments of a reader call are not determined", loop, unbound[:4])
     ctx.check(not order, "rdcards: the readers receive the line iterator first and the current line second", loop, order or None)
     conch = {}
     for star, W in ((True, 16), (False, 8)):
         got = found.get(star, set())
-        ok = len(got) == 1 and next(iter(got))[0] == Fraction(W) and isinstance(next(iter(got))[1], Lit)
-        ctx.check(ok, f"rdcards: a card {'with' if star else 'without'} '*' in its name field is read with {W}-wide fields", loop,
-                  None if ok else [(str(a), str(b)) for a, b in got])
-        conch[W] = next(iter(got))[1].s if ok else ""
-    ok = "*" in conch[16] and "+" in conch[8] and " " in conch[8]
-    ctx.check(ok, "rdcards: '*' continues a large-field card, blank or '+' a small-field card", loop, conch)
-    ok = len(comma) == 1 and isinstance(next(iter(comma)), Lit) and set(" +,") <= set(next(iter(comma)).s)
-    ctx.check(ok, "rdcards: the comma reader accepts blank, '+' and ',' continuations", loop, [str(c) for c in comma])
-    cch = next(iter(comma)).s if ok else " +,"
+        what = f"rdcards: a card {'with' if star else 'without'} '*' in its name field is read with {W}-wide fields"
+        if not got or not all(is_num(a) and isinstance(b, Lit) for a, b in got):
+            # nothing the source contradicts: the dispatch could not be bound to values
+            ctx.error(what + ": the field width / continuation characters handed to the fixed-field reader are not determined", loop,
+                      [(str(a), str(b)) for a, b in got])
+            continue
+        ok = len(got) == 1 and next(iter(got))[0] == Fraction(W)
+        ctx.check(ok, what, loop, None if ok else [(str(a), str(b)) for a, b in got])
+        if ok:
+            conch[W] = next(iter(got))[1].s
+    if len(conch) == 2:
+        ok = "*" in conch[16] and "+" in conch[8] and " " in conch[8]
+        ctx.check(ok, "rdcards: '*' continues a large-field card, blank or '+' a small-field card", loop, conch)
+    if not comma or not all(isinstance(c, Lit) for c in comma):
+        ctx.error("rdcards: the continuation characters handed to the comma reader are not determined", loop, [str(c) for c in comma])
+        cch = None
+    else:
+        ok = len(comma) == 1 and set(" +,") <= set(next(iter(comma)).s)
+        ctx.check(ok, "rdcards: the comma reader accepts blank, '+' and ',' continuations", loop, [str(c) for c in comma])
+        cch = next(iter(comma)).s if ok else " +,"
+    if len(conch) != 2 or cch is None:
+        return                              # reported above; the cards cannot be read back without knowing what the reader is handed
     # the three writers render real fields with their own formatter (single- vs double-precision style), wherever the shared code lives
     for q, fmt, name, W, per in WRITERS:
         fn = ctx.src.func(BULK, q)
